@@ -77,7 +77,8 @@ WIDE = {
     'w.add': ('aa', 'n', lambda a, b: a + b), 'w.sub': ('aa', 'n', lambda a, b: a - b), 'w.mul': ('aa', 'n', lambda a, b: a * b),
     'w.div': ('aa', 'n', lambda a, b: a / b), 'w.floordiv': ('nn', 'n', lambda a, b: a // b), 'w.mod': ('nn', 'n', lambda a, b: a % b),
     'w.pow2': ('n', 'n', lambda a: a ** 2), 'w.pow3': ('n', 'n', lambda a: a ** 3), 'w.powhalf': ('n', 'n', lambda a: a ** 0.5),
-    'w.powm1': ('n', 'n', lambda a: a ** -1), 'w.pow0': ('n', 'n', lambda a: a ** 0), 'w.powS': ('nn', 'n', lambda a, b: a ** b),
+    'w.powm1': ('n', 'n', lambda a: a ** -1), 'w.pow1p5': ('n', 'n', lambda a: a ** 1.5), 'w.powm2': ('n', 'n', lambda a: a ** -2),
+    'w.pow5': ('n', 'n', lambda a: a ** 5), 'w.powm1p5': ('n', 'n', lambda a: a ** -1.5), 'w.pow0': ('n', 'n', lambda a: a ** 0), 'w.powS': ('nn', 'n', lambda a, b: a ** b),
     'w.neg': ('a', 'n', lambda a: -a), 'w.pos': ('a', 'n', lambda a: +a), 'w.abs': ('a', 'n', lambda a: abs(a)),
     'w.sign': ('n', 'n', lambda a: a.sign()), 'w.int': ('n', 'n', lambda a: a.int()), 'w.frac': ('n', 'n', lambda a: a.frac()),
     'w.recip': ('n', 'n', lambda a: a.reciprocal()), 'w.sqrt': ('n', 'n', lambda a: a.sqrt()),
@@ -162,12 +163,18 @@ def build(o):
     else:
         vals = with_prov(vals, prov)
     q = Boolean(vals, m) if dt == 'bool' else Scalar(vals, m)
-    for k, dvals, dmask in o['derivs']:
-        dv = np.array(dvals, dtype='float64').reshape(shape) / 2.
+    for ent in o['derivs']:
+        k, dvals, dmask = ent[:3]
+        den = ent[3] if len(ent) > 3 else None          # d/d(vector of length den): denominator (den,), drank=1
         dm = mk_mask(dmask, shape)
         if isinstance(dm, np.ndarray):
             dm = with_prov(dm, prov)
-        q.insert_deriv(k, Scalar(with_prov(dv, prov) if shape else float(dv), dm))
+        if den is None:
+            dv = np.array(dvals, dtype='float64').reshape(shape) / 2.
+            q.insert_deriv(k, Scalar(with_prov(dv, prov) if shape else float(dv), dm))
+        else:
+            dv = np.array(dvals, dtype='float64').reshape(shape + (den,)) / 2.
+            q.insert_deriv(k, Scalar(dv, dm, drank=1))
     return q
 
 
@@ -205,21 +212,28 @@ def as_qube(r):
     return r
 
 
-def obs(q, sel):
-    """canonical observation restricted to the antimask: class, shape, keys, elements read through broadcasting"""
+def obs(q, sel, struct=False):
+    """canonical observation restricted to the antimask: class, shape, keys, elements read through broadcasting.
+    struct=True (oracle only) appends, per derivative, its class, numerator and denominator shapes: these are facts
+    about the object, not about an element, so they are observable even where every selected element is masked"""
     grid = sel.shape
     m = np.broadcast_to(expanded_mask(q), grid)[sel]
     v = np.broadcast_to(np.asarray(q._values_), grid)[sel]
     keys = sorted(q._derivs_)
     dm = [np.broadcast_to(expanded_mask(q._derivs_[k]), grid)[sel] for k in keys]
-    dv = [np.broadcast_to(np.asarray(q._derivs_[k]._values_), grid)[sel] for k in keys]
+    dv = [np.broadcast_to(np.asarray(q._derivs_[k]._values_), grid + q._derivs_[k]._item_)[sel] for k in keys]
+    def dbits(x):
+        return bits(x) if np.ndim(x) == 0 else [bits(y) for y in np.ravel(x)]
     cells = []
     for i in range(len(m)):
         if m[i]:
             cells.append('M')       # a masked element has no observable value or derivative
         else:
-            cells.append([bits(v[i])] + [[keys[j], 'M' if dm[j][i] else bits(dv[j][i])] for j in range(len(keys))])
-    return [type(q).__name__, list(q._shape_), cells]
+            cells.append([bits(v[i])] + [[keys[j], 'M' if dm[j][i] else dbits(dv[j][i])] for j in range(len(keys))])
+    res = [type(q).__name__, list(q._shape_), cells]
+    if struct:
+        res.append([[k, type(q._derivs_[k]).__name__, list(q._derivs_[k]._numer_), list(q._derivs_[k]._denom_)] for k in keys])
+    return res
 
 
 def ev(t, env):
@@ -243,7 +257,7 @@ class Switches:
         return False
 
 
-def run_both(case):
+def run_both(case, struct=False):
     """(via shrinking, direct).  'order': the two computations on separately built operands (default) or on the SAME
     operand objects, direct first or via first (warm caches, self-referencing 'unshrunk' entries of shapeless operands);
     'warm': cache entries filled before use; 'swarm': likewise on the shrunken operands; 'twice': unshrink twice."""
@@ -255,7 +269,7 @@ def run_both(case):
         try:
             with warnings.catch_warnings():
                 warnings.simplefilter('error')
-                return obs(as_qube(ev(case['tree'], env)), sel)
+                return obs(as_qube(ev(case['tree'], env)), sel, struct)
         except Exception as e:
             return C.exc_name(e)
 
@@ -271,7 +285,7 @@ def run_both(case):
                     u = r.unshrink(am, tuple(case.get('ushape', [])))
                     if case.get('twice'):
                         u = r.unshrink(am, tuple(case.get('ushape', [])))
-                    return obs(u, sel)
+                    return obs(u, sel, struct)
             except Exception as e:
                 return C.exc_name(e)
 
@@ -330,7 +344,7 @@ def signature(case, what):
 def oracle(case):
     if case.get('op') == 'shrink':
         return None
-    via, direct = run_both(case)
+    via, direct = run_both(case, struct=True)
     if isinstance(direct, str):
         return None                    # the direct computation is itself rejected: nothing to compare
     if isinstance(via, str):
@@ -338,14 +352,21 @@ def oracle(case):
                 % (via, CFG_NAMES[tuple(case['cfg'])]))
     if via[0] != direct[0]:
         return (signature(case, 'class'), 'result class %s via shrinking, %s directly' % (via[0], direct[0]))
+    sv, sd = {e[0]: e[1:] for e in via[3]}, {e[0]: e[1:] for e in direct[3]}
+    for k in sorted(set(sv) & set(sd)):          # a derivative present both ways has one class, numerator, denominator
+        if sv[k] != sd[k]:
+            return (signature(case, 'derivative-structure'), 'derivative d_d%s is a %s numer %s denom %s via shrinking, a %s numer %s '
+                    'denom %s directly (switches %s)' % ((k,) + tuple(map(str, sv[k])) + tuple(map(str, sd[k])) + (CFG_NAMES[tuple(case['cfg'])],)))
     for i, (a, b) in enumerate(zip(via[2], direct[2])):
         if a != b and a != 'M' and b != 'M' and a[0] == b[0]:
             # an absent derivative is a zero derivative (polymath's own convention in _add_derivs etc.): operations such
             # as clip()/mask_where(replace=) add a key to the WHOLE object as soon as one element anywhere is replaced
             keys = sorted({k for k, _ in a[1:]} | {k for k, _ in b[1:]})
-            zero = bits(0.0)
-            a = [a[0]] + [[k, dict(map(tuple, a[1:])).get(k, zero)] for k in keys]
-            b = [b[0]] + [[k, dict(map(tuple, b[1:])).get(k, zero)] for k in keys]
+            da, db = {k: x for k, x in a[1:]}, {k: x for k, x in b[1:]}
+            def zero_like(x):
+                return bits(0.0) if not isinstance(x, list) else [bits(0.0)] * len(x)
+            a = [a[0]] + [[k, da.get(k, zero_like(db.get(k)))] for k in keys]
+            b = [b[0]] + [[k, db.get(k, zero_like(da.get(k)))] for k in keys]
         if a != b:
             kind = 'mask' if (a == 'M') != (b == 'M') else 'value' if a[0] != b[0] else 'derivative'
             return (signature(case, kind), 'selected element %d: %s via shrinking, %s directly (switches %s)'
@@ -368,7 +389,8 @@ def am_sx(am):
 
 def modelled(case):
     return all(op in OPS1 or op in OPS2 for op in tree_ops(case['tree'])) and \
-        all(o.get('dtype', 'float') == 'float' for o in case['opds']) and not case.get('ushape')
+        all(o.get('dtype', 'float') == 'float' and all(len(e) == 3 for e in o['derivs']) for o in case['opds']) and \
+        not case.get('ushape')
 
 
 def request(case):
@@ -387,7 +409,7 @@ def rand_mask(rng, shape, mode=None):
     return rng.choice(mask_reps(b, shape))
 
 
-def rand_opd(rng, shape, nderiv=None, maskmode=None, dtype='float'):
+def rand_opd(rng, shape, nderiv=None, maskmode=None, dtype='float', den=False):
     n = int(np.prod(shape, dtype=int))
     if nderiv is None:
         nderiv = rng.choice([0, 0, 1, 2])
@@ -395,6 +417,9 @@ def rand_opd(rng, shape, nderiv=None, maskmode=None, dtype='float'):
     for k in ['t', 'u'][:nderiv]:
         dm = 'F' if rng.random() < 0.7 else rand_mask(rng, shape, 'rand')
         derivs.append([k, [rng.randint(-6, 6) for _ in range(n)], dm])
+    if den and shape:                           # a derivative with a denominator: d/d(vector), item shape (den,)
+        dlen = rng.choice([3, 2])
+        derivs.append(['v', [rng.randint(-6, 6) for _ in range(n * dlen)], 'F' if rng.random() < 0.7 else rand_mask(rng, shape, 'rand'), dlen])
     o = {'shape': list(shape), 'vals': [rng.choice([-6, -4, -3, -2, -1, 0, 0, 1, 2, 3, 4, 8]) for _ in range(n)],
          'mask': rand_mask(rng, shape, maskmode), 'derivs': derivs if dtype == 'float' else []}
     if dtype != 'float':
@@ -476,7 +501,7 @@ def scenario(rng, depth, ops1, ops2, dtype='float'):
     shapes = rand_shapes(rng, full, nv)
     grid = list(np.broadcast_shapes(*shapes))
     am, g = rand_am(rng, grid, shapes)
-    opds = [rand_opd(rng, s, dtype=dtype) for s in shapes]
+    opds = [rand_opd(rng, s, dtype=dtype, den=(dtype == 'float' and rng.random() < 0.12)) for s in shapes]
     tree = rand_tree(rng, depth, nv, ops1, ops2)
     sc = {'am': am, 'grid': g, 'tree': tree, 'opds': opds}
     return history(rng, sc)
@@ -538,6 +563,32 @@ def gen_cases(rng, tier):
                 sc = history(rng, {'am': am, 'grid': list(np_bcast(full, shape)), 'tree': [op, ['var', 0]], 'opds': [o]}, p=0.4)
                 for cfg in CFGS:
                     cases.append(mk(dict(sc, cfg=list(cfg))))
+    # 1c. derivatives with denominators (d/d(vector): the derivative's item shape differs from the parent's), every
+    #     operand in turn masked at every selected element (-> the shape-() stand-in and ITS derivatives); oracle only
+    DEN_TREES = [['var', 0], ['var', 1], ['neg', ['var', 0]], ['abs', ['var', 0]], ['wod', ['var', 0]], ['sqrt', ['var', 0]],
+                 ['add', ['var', 0], ['var', 1]], ['add', ['var', 1], ['var', 0]], ['sub', ['var', 0], ['var', 1]],
+                 ['mul', ['var', 0], ['var', 1]], ['mul', ['var', 1], ['var', 0]], ['div', ['var', 1], ['var', 0]],
+                 ['div', ['var', 0], ['var', 1]], ['recip', ['var', 0]], ['mulc', ['var', 0]], ['addc', ['var', 0]],
+                 ['add', ['mul', ['var', 0], ['var', 1]], ['var', 0]]]
+    for full in [(3,), (2, 3), (3, 4)]:
+        n = int(np.prod(full, dtype=int))
+        for pos in (0, 1, None):
+            bits_ = [rng.random() < 0.5 for _ in range(n)]
+            bits_[rng.randrange(n)] = True
+            bits_[(bits_.index(True) + 1) % n] = False
+            am = {'shape': list(full), 'bits': bits_}
+            opds = []
+            for i in range(2):
+                o = rand_opd(rng, full, nderiv=rng.choice([0, 1]), maskmode='none', den=True)
+                if i == pos:
+                    o['mask'] = [b or rng.random() < 0.2 for b in bits_]
+                    o['derivs'] = [e[:2] + [list(o['mask']) if rng.random() < 0.5 else 'F'] + e[3:] for e in o['derivs']]
+                elif rng.random() < 0.5:
+                    o['mask'] = rand_mask(rng, full, 'rand')
+                opds.append(o)
+            for tree in DEN_TREES:
+                for cfg in CFGS:
+                    cases.append(mk({'cfg': list(cfg), 'am': am, 'grid': list(full), 'tree': tree, 'opds': opds}))
     # 2. generated scenarios, the four switch settings each
     reps = 8000 if thorough else 350
     for _ in range(reps):
